@@ -56,11 +56,11 @@ var vC08Durations = []time.Duration{time.Hour, 24 * time.Hour, 168 * time.Hour}
 // using the truncated end, sorted by ShardGroupInfos.Less, truncation inside the group).
 func vC08Data(nGroups int, duration time.Duration) *meta.Data {
 	d := &meta.Data{Index: 1}
-	// two data nodes, replication 1 (=> two shards per new group); thorough also 1 node / replication 2
+	// two data nodes, replication 1 (=> two shards per new group); thorough also replication 2
 	nNodes, replicaN := 2, 1
 	durations := []time.Duration{time.Hour, 168 * time.Hour}
 	if vThorough() {
-		nNodes, replicaN = vLen("dataNodes", 1, 2), vLen("replicaN", 1, 2)
+		replicaN = vLen("replicaN", 1, 2)
 		durations = vC08Durations
 	}
 	for i := 1; i <= nNodes; i++ {
